@@ -34,12 +34,12 @@ Definition is_lin_op (o : op) : bool :=
   | _ => false
   end.
 
-(* the fragment of the correctness theorem: elementwise arithmetic and share-wise lifted unary
-   operations over arrays/scalars *)
+(* the fragment of the correctness theorem: Add, Subtract, the bilinear operations Multiply, Dot,
+   Matmul, Gemm, and the share-wise lifted unary operations, over arrays/scalars *)
 Definition thm_op (o : op) : bool :=
   match o with
   | OInput t | OZeros t | OOnes t | OConstant t _ => is_leaf t
-  | OAdd | OSubtract | OMultiply => true
+  | OAdd | OSubtract | OMultiply | ODot | OMatmul | OGemm _ _ => true
   | _ => is_lin_op o
   end.
 Definition thm_frag (nodes : list node) : bool := forallb (fun nd => thm_op (n_op nd)) nodes.
